@@ -721,8 +721,11 @@ class EvalMixin(InterpBase):
 
     def contract_for(self, info, recv=None):
         """Callee contract lookup: receiver-class specific key first, then the defining function."""
+        use = getattr(self.top, "use", None) if self.top is not None else None
         if recv is not None and isinstance(recv, Obj) and recv.cls is not None:
             k = f"{recv.cls.module}:{recv.cls.name}.{info.qualname.split('.')[-1]}"
+            if use and k in use:
+                return self.registry[use[k]]
             if k in self.registry and not getattr(self.registry[k], "proof_only", False):
                 return self.registry[k]
         c = self.registry.get(info.key)
